@@ -139,7 +139,6 @@ package ext
 //@ func normalizeHeaderValue(ov, ob, headerLength) nv, nb, nhl
 //@   props C02
 //@   nosafety
-//@   replay-import github.com/cloudwego/hertz/pkg/protocol
 //@   replay-go buf := []byte("A: b\r\n c\r\n\r\nBODYBODY"); var s HeaderScanner; s.B = buf; for s.Next() {}; if string(buf[len(buf)-8:]) != "BODYBODY" { fmt.Printf("VCGO-VIOLATED scanning a folded header moved the bytes after the header block: buffer is now %q, HLen=%d for a 12-byte block\n", buf, s.HLen) }
 //@   requires sameArray(ov, ob) && off(ov) == off(ob) && len(ov) <= len(ob) && len(ob) <= cap(ob)
 //@   modifies bytes(ov)
